@@ -4,6 +4,7 @@ One unit = one generated instance: a fault-free pass that counts every KKT facto
 every LAPACK/CHOLMOD call inside them, then one simulated solve per enumerated fault plan.
 """
 import io
+import os
 import math
 import random
 import sys
@@ -228,10 +229,12 @@ def simulate(inst, plan, log=None):
     try:
         with contextlib.redirect_stdout(buf):
             try:
+                opts = dict(inst['options'])
+                opts.update(plan.get('tol') or {})
                 if kind == 'gp':
-                    out.res = gen.solve_gp(inst, m, options=dict(inst['options']), kktsolver=kktsolver)
+                    out.res = gen.solve_gp(inst, m, options=opts, kktsolver=kktsolver)
                 else:
-                    out.res = gen.call_solver(inst, m, kktsolver=kktsolver, options=dict(inst['options']))
+                    out.res = gen.call_solver(inst, m, kktsolver=kktsolver, options=opts)
             except BaseException as e:   # noqa — classified by the oracle
                 out.exc = e
     finally:
@@ -282,8 +285,16 @@ def judge(inst, plan, out, base):
     domain = plan.get('domain') is not None
     facts['fired_any'] = fired_any or (domain and facts['refused'] > 0)
 
+    natural = bool(plan.get('tol')) and not fired_any and not domain
+
     def V(oracle, klass, detail, **sig):
         s = {'oracle': oracle, 'entry': kind, 'kkt': inst['kkt'], 'user_kkt': bool(inst.get('user_kkt'))}
+        if natural:
+            # no injected fault: whatever goes wrong here is the iteration's own breakdown under unattainable
+            # tolerances (exceptions escaping, or an 'unknown' result assembled from broken-down iterates)
+            s['natural'] = True
+            s['family'] = 'arithmetic'
+            klass = 'natural:' + klass
         s.update(sig)
         return {'oracle': oracle, 'klass': '%s:%s:%s' % (oracle, kind, klass), 'sig': s, 'detail': detail}
 
@@ -297,6 +308,31 @@ def judge(inst, plan, out, base):
                 break
     ph = phase_of(first) if first else None
     facts['phase'] = ph
+    # ---- N. no injected fault, but tolerances beyond what double precision can deliver: the iteration
+    #         runs into its own numerical breakdown (square roots of rounded-negative numbers, zero
+    #         singular values, overflow).  That is a numerical failure inside a solve like any other:
+    #         it must end in a result ('unknown', or whatever was reached), not in an exception.
+    if plan.get('tol') and not seam.interface_failed and not fired_any and not domain:
+        facts['fired_any'] = True
+        facts['natural'] = True
+        if out.exc is not None:
+            e = out.exc
+            import traceback
+            frames = [f for f in traceback.extract_tb(e.__traceback__) if os.sep + 'cvxopt' + os.sep in f.filename]
+            site = frames[-1].name if frames else '?'
+            arithmetic = isinstance(e, ArithmeticError) or (isinstance(e, ValueError) and 'domain error' in str(e))
+            facts['outcome'] = 'natural:' + type(e).__name__
+            return V('natural-breakdown-escapes', type(e).__name__ + ':' + site,
+                     'with %r and no injected fault %s(%s) left the solver from %s()' % (plan['tol'], type(e).__name__, e, site),
+                     exc=type(e).__name__, site=site, family='arithmetic' if arithmetic else 'other'), facts
+        if not isinstance(out.res, dict):
+            return V('result-type', 'x', 'solver returned %r' % type(out.res)), facts
+        facts['outcome'] = out.res.get('status')
+        if out.res.get('status') == 'optimal' and base['status'] == 'optimal':
+            a, b = out.res.get('primal objective'), base['pcost']
+            if abs(a - b) > 1e-4 * (1.0 + abs(b)):
+                return V('tighter-tolerances-change-optimum', 'objective', "'optimal' with objective %r under tighter tolerances; default tolerances gave %r" % (a, b)), facts
+        return None, facts
     # ---- A. what may leave the solver
     if out.exc is not None:
         e = out.exc
@@ -369,7 +405,17 @@ def judge(inst, plan, out, base):
         for pr in probs:
             if pr[0] in ('missing', 'nonfinite', 'domain'):
                 return V('unknown-iterates', pr[0] + ':' + pr[1], "'unknown' result: %s %s" % (pr[0], pr[1]), phase=ph), facts
-        if info.get('margin_s', 1) <= 0 or info.get('margin_z', 1) <= 0:
+        # "strictly inside" is judged exactly for injected failures (the iterates are then well inside).  When the
+        # failure is the iteration's own breakdown under unattainable tolerances, the iterates sit on the boundary
+        # to within rounding and the oracle's own floating-point margin (smallest entry / x0 - |x1| / smallest
+        # eigenvalue) decides nothing inside |margin| <= 1e-13 * norm
+        tol_s = 1e-13 * max(1.0, info.get('norm_s', 0.0))
+        tol_z = 1e-13 * max(1.0, info.get('norm_z', 0.0))
+        if plan.get('tol') and not fired_any and 'margin_s' in info and \
+                (abs(info['margin_s']) <= tol_s or abs(info['margin_z']) <= tol_z) and \
+                not (info['margin_s'] < -tol_s or info['margin_z'] < -tol_z):
+            facts['interior_inconclusive'] = True
+        elif info.get('margin_s', 1) <= 0 or info.get('margin_z', 1) <= 0:
             return V('unknown-interior', 'x', "'unknown' result with s or z not strictly inside the cone: margins %r %r" %
                      (info.get('margin_s'), info.get('margin_z')), phase=ph), facts
         if probs:
@@ -477,11 +523,17 @@ def plans_for(rng, inst, base, tier):
                     plans.append({'domain': reg, 'kkt': [['factor', rng.randint(1, NF)]]})
                 if i % 4 == 0 and NS >= 2:
                     plans.append({'domain': reg, 'kkt': [['solve', rng.randint(1, NS)]]})
+        pass
     else:
         # seeded pairs: two solve faults / factor+solve (second only matters if the first is survived)
         for _ in range(4):
             if NF >= 2 and NS >= 2:
                 plans.append({'kkt': [['factor', rng.randint(1, NF)], ['solve', rng.randint(1, NS)]]})
+    # natural numerical breakdown: valid tolerances that cannot be attained
+    for tol in ({'feastol': 1e-10, 'abstol': 1e-10, 'reltol': 1e-10},
+                {'feastol': 1e-12, 'abstol': 1e-12, 'reltol': 1e-12, 'refinement': rng.choice([0, 1, 2])},
+                {'feastol': 1e-14, 'abstol': 1e-15, 'reltol': 1e-15, 'maxiters': rng.choice([40, 100])}):
+        plans.append({'tol': tol})
     return plans
 
 
@@ -528,6 +580,9 @@ def run_unit(seed, tier, r, journal):
         bump('steps', out.seam.nfactor + out.seam.nsolve)
         ulog.add('plan', plan.get('kkt'), plan.get('lapack'), bool(plan.get('domain')), facts.get('outcome'),
                  facts.get('phase'), type(out.exc).__name__ if out.exc else None)
+        if facts.get('natural'):
+            bump('fault.unattainable_tolerances')
+            bump('probe.natural_breakdown.' + str(facts.get('outcome')).replace(' ', '_'))
         if facts['fired_any']:
             res['nontrivial_digests'].append(core.sha((idig, plan)))
             for f in out.seam.fired:
@@ -575,8 +630,13 @@ def shrink(case, still_fails):
     if plan.get('domain') is not None:
         items.append(('domain', plan['domain']))
 
+    if plan.get('tol') and not items:
+        return case
+
     def build(sub):
         p = {}
+        if plan.get('tol'):
+            p['tol'] = plan['tol']
         for kind, x in sub:
             if kind == 'domain':
                 p['domain'] = x
